@@ -48,7 +48,7 @@ NUMERIC = {
 }
 
 XML_SIGMA = ["<", ">", "&", "]", "\r", "\n", "a", ";"]
-IRIS = [EX + "a%b", EX + "100%", EX + "docs", EX + "dir/docs", EX + "dir/doc/below", EX + "dir/x", EX + "dir/doc#frag", EX + "dir/doc", EX + "dir/", EX + "dir/sub/y", EX + "dir/doc?q=1", EX + "a", EX + "b#c", EX + "1digit", EX + "end.", EX + "a(b)", EX + "a%20b", EX + "ns/", EX, "http://other.org/x/y",
+IRIS = [EX + "q?a=1&b=2#p", EX + "it's#p", EX + "a%b", EX + "100%", EX + "docs", EX + "dir/docs", EX + "dir/doc/below", EX + "dir/x", EX + "dir/doc#frag", EX + "dir/doc", EX + "dir/", EX + "dir/sub/y", EX + "dir/doc?q=1", EX + "a", EX + "b#c", EX + "1digit", EX + "end.", EX + "a(b)", EX + "a%20b", EX + "ns/", EX, "http://other.org/x/y",
         str(RDF.type), str(RDF.nil), str(RDF.first), str(XSD.string), "urn:x:y", "http://ex.org/é", EX + "a_b-c", EX + "a:b", "http://ex.org"]
 
 
@@ -94,6 +94,13 @@ def embeddings(t):
            ("list-later-member", [(A, P, B("b1")), (B("b1"), FIRST, A), (B("b1"), REST, B("b2")), (B("b2"), FIRST, t), (B("b2"), REST, B("b3")),
                                   (B("b3"), FIRST, t), (B("b3"), REST, NIL)])]
     out.append(("type-object", [(A, ["I", str(RDF.type), None, None], t), (A, P, I("b"))]))
+    # the term is the first of two values of one property (writers that collect the values of a property meet it before a second one)
+    out.append(("first-of-two-values", [(A, P, t), (A, P, L("zz"))]))
+    # the term is the value of a property that N3 writes as a keyword ("=", "=>", "a"), on a blank node written inline
+    for kw, iri in (("sameAs", "http://www.w3.org/2002/07/owl#sameAs"), ("implies", "http://www.w3.org/2000/10/swap/log#implies")):
+        if t[0] == "I":
+            out.append(("bnode-" + kw, [(A, P, B("b1")), (B("b1"), ["I", iri, None, None], t)]))
+            out.append(("bnode-%s+other" % kw, [(A, P, B("b1")), (B("b1"), ["I", iri, None, None], t), (B("b1"), ["I", "http://a.example/p", None, None], A)]))
     if t[0] == "I":
         out.append(("subject", [(t, P, A)]))
         out.append(("predicate", [(A, t, I("b"))]))
@@ -131,6 +138,10 @@ def term_class(t):
     return "%s-literal/%s" % (kind, char_class(t[1]))
 
 
+def xsd_string_norm(rows):
+    return {tuple((x[0], x[1], None, x[3]) if (x[0] == "L" and len(x) > 3 and x[2] == str(XSD.string)) else x for x in r) for r in rows}
+
+
 def roundtrip(triples, fmt, option, horizon=5.0):
     """Returns (kind, detail) on failure, None on success."""
     g = graph_from(triples, bind_namespaces=("rdflib" if option != "plain" else "none"))
@@ -138,11 +149,15 @@ def roundtrip(triples, fmt, option, horizon=5.0):
         g.bind("ex", EX)
     orig = graph_rows(g)
     kw = {}
-    if option != "plain" and fmt not in ("nt", "hext"):
-        kw["base"] = BASES[option]
+    if option == "compact":
+        skw = {"auto_compact": True}  # JSON-LD only: a context is generated and values are written in their shortest form
+    else:
+        if option != "plain" and fmt not in ("nt", "hext"):
+            kw["base"] = BASES[option]
+        skw = kw
     try:
         with seams.watchdog(horizon):
-            out = g.serialize(format=fmt, **kw)
+            out = g.serialize(format=fmt, **skw)
     except seams.Timeout:
         return ("serialize-does-not-terminate", {"horizon_s": horizon})
     except Exception as e:  # noqa: BLE001
@@ -160,6 +175,9 @@ def roundtrip(triples, fmt, option, horizon=5.0):
         return ("parse-of-own-output-raises|" + type(e).__name__, {"exc": repr(e)[:300], "output": out[:600]})
     got = graph_rows(back)
     a, b = (hext_norm(orig), hext_norm(got)) if fmt == "hext" else (orig, got)
+    if option == "compact":
+        # a compacted document writes "x" and "x"^^xsd:string alike as a JSON string: RDF 1.1 knows one literal there (simple literal = xsd:string)
+        a, b = xsd_string_norm(a), xsd_string_norm(b)
     if not iso(a, b):
         lost = len(a) - len(b)
         kind = "triples-lost" if len(b) < len(a) else "triples-added" if len(b) > len(a) else "term-changed"
@@ -178,7 +196,7 @@ def _terms_batch(arg):
             for fmt in formats:
                 if fmt in ("xml", "pretty-xml") and not xml_expressible_strict(triples):
                     continue
-                for opt in OPTIONS:
+                for opt in OPTIONS + (["compact"] if fmt == "json-ld" and emb in ("obj-of-iri", "first-of-two-values", "obj-of-bnode", "list-member") else []):
                     n += 1
                     if "plain-literal/plain" not in tc:
                         nontriv += 1
